@@ -62,6 +62,12 @@ struct V<Counted> {
     static long read(Counted &v) { return v.b == ~v.a ? v.a : -1; }
     static constexpr const char *name = "counted";
 };
+static int g_ref_obj = 42;  // reference results must refer to this very object
+template <>
+struct V<int &> {
+    static long read(int &v) { return &v == &g_ref_obj ? v : -2; }
+    static constexpr const char *name = "ref";
+};
 template <>
 struct V<MoveOnly> {
     static MoveOnly make() { return MoveOnly(42); }
@@ -90,14 +96,21 @@ static cocls::async<T> level(Ctx &c, int k, Guard arg) {
             co_await level<T>(c, k - 1, Guard());
             co_return;
         } else {
-            T v = std::move(co_await level<T>(c, k - 1, Guard()));
-            co_return std::move(v);
+            if constexpr (std::is_reference_v<T>) {
+                T v = co_await level<T>(c, k - 1, Guard());
+                co_return v;
+            } else {
+                T v = std::move(co_await level<T>(c, k - 1, Guard()));
+                co_return std::move(v);
+            }
         }
     } else {
         if (c.comp == SUSP_VALUE || c.comp == SUSP_THROW) co_await c.gate;
         if (c.comp == SYNC_THROW || c.comp == SUSP_THROW) throw TestError();
         if constexpr (std::is_void_v<T>)
             co_return;
+        else if constexpr (std::is_reference_v<T>)
+            co_return g_ref_obj;
         else
             co_return V<T>::make();
     }
@@ -113,14 +126,21 @@ static cocls::future<T> level_future(Ctx &c, int k, Guard arg) {
             co_await level<T>(c, k - 1, Guard());
             co_return;
         } else {
-            T v = std::move(co_await level<T>(c, k - 1, Guard()));
-            co_return std::move(v);
+            if constexpr (std::is_reference_v<T>) {
+                T v = co_await level<T>(c, k - 1, Guard());
+                co_return v;
+            } else {
+                T v = std::move(co_await level<T>(c, k - 1, Guard()));
+                co_return std::move(v);
+            }
         }
     } else {
         if (c.comp == SUSP_VALUE || c.comp == SUSP_THROW) co_await c.gate;
         if (c.comp == SYNC_THROW || c.comp == SUSP_THROW) throw TestError();
         if constexpr (std::is_void_v<T>)
             co_return;
+        else if constexpr (std::is_reference_v<T>)
+            co_return g_ref_obj;
         else
             co_return V<T>::make();
     }
@@ -163,9 +183,15 @@ static cocls::async<void> outer_coawait(Ctx &c, int depth, Obs &o) {
             co_await level<T>(c, depth, Guard());
             o.kind = 1;
         } else {
-            T v = std::move(co_await level<T>(c, depth, Guard()));
-            o.kind = 1;
-            o.val = V<T>::read(v);
+            if constexpr (std::is_reference_v<T>) {
+                T v = co_await level<T>(c, depth, Guard());
+                o.kind = 1;
+                o.val = V<T>::read(v);
+            } else {
+                T v = std::move(co_await level<T>(c, depth, Guard()));
+                o.kind = 1;
+                o.val = V<T>::read(v);
+            }
         }
     } catch (const TestError &) {
         o.kind = 2;
@@ -228,9 +254,16 @@ static void run_cell(seqx::Runner &R, int start, int comp, int depth) {
                         level<T>(c, depth, Guard()).join();
                         got.kind = 1;
                     } else {
-                        T v = level<T>(c, depth, Guard()).join();
-                        got.kind = 1;
-                        got.val = V<T>::read(v);
+                        if constexpr (std::is_reference_v<T>) {
+                            // join() returns the referred value (by value for a reference result): identity is checked by the other modes
+                            int v = level<T>(c, depth, Guard()).join();
+                            got.kind = 1;
+                            got.val = v;
+                        } else {
+                            T v = level<T>(c, depth, Guard()).join();
+                            got.kind = 1;
+                            got.val = V<T>::read(v);
+                        }
                     }
                 } catch (const TestError &) {
                     got.kind = 2;
@@ -314,6 +347,7 @@ void seqx_run(seqx::Runner &R, const std::string &) {
     cells<void>(R);
     cells<MoveOnly>(R);
     cells<Counted>(R);
+    cells<int &>(R);
 }
 
 void seqx_replay(seqx::Runner &R, const std::string &c) {
@@ -335,6 +369,8 @@ void seqx_replay(seqx::Runner &R, const std::string &c) {
         cells<int>(R, st, cm, depth);
     else if (c.find("type=void") != std::string::npos)
         cells<void>(R, st, cm, depth);
+    else if (c.find("type=ref") != std::string::npos)
+        cells<int &>(R, st, cm, depth);
     else if (c.find("type=moveonly") != std::string::npos)
         cells<MoveOnly>(R, st, cm, depth);
     else
